@@ -79,6 +79,10 @@ type FaultStore struct {
 	snap    *Snap
 	txSeen  bool // some transaction was begun successfully in the armed request
 	txEnded bool
+
+	// CancelCtx, when set, is the cancel function of the armed request's context: a "generic" fault then is
+	// the request context ending under the call - the context is cancelled and the call answers context.Canceled.
+	CancelCtx func()
 }
 
 func NewFaultStore() *FaultStore {
@@ -168,6 +172,10 @@ func (s *FaultStore) at(ctx context.Context, op string, kinds int, write bool, p
 	s.Faults = append(s.Faults, Fault{Index: i, Op: op, Kind: k, Phase: phase, Write: write})
 	if s.open && phase == phInTx {
 		s.Trace = append(s.Trace, "W")
+	}
+	if k == kGeneric && s.CancelCtx != nil {
+		s.CancelCtx()
+		return context.Canceled
 	}
 	return kindErr(k)
 }
